@@ -28,12 +28,13 @@ def dataset(dump):
 
 class C06(Spec):
     pid = "C06"
-    lean_module = "NunVerif.Props.C06Incremental"
+    lean_module = "NunVerif.Props.C06History"
     search_cap = 4000
     theorems = ["Nun.C06_le64_roundtrip", "Nun.C06_version_roundtrip", "Nun.C06_key_record_size", "Nun.C06_value_record_size",
                 "Nun.C06_snapshot_keeps_memory", "Nun.snapshotDb_sameData",
                 "Nun.C06_reclaim_roundtrip", "Nun.snapshotDb_reclaim_files", "Nun.loadLoop_encFiles",
-                "Nun.C06_incremental_roundtrip", "Nun.snapFold_inc", "Nun.loadLoop_recs", "Nun.pwrite_record"]
+                "Nun.C06_incremental_roundtrip", "Nun.snapFold_inc", "Nun.loadLoop_recs", "Nun.pwrite_record",
+                "Nun.C06_snapshot_restores_after_any_history", "Nun.C06_history_inv", "Nun.C06_reclaim_inv", "Nun.restart_inv", "Nun.J_fresh", "Nun.load_clean"]
     rule = ("all sequences of length L over {set (values of 0, 1, 6 multi-byte and 300 bytes), set-safe, remove, increment, snapshot false, snapshot true, restart} x keys, "
             "plus seeded random sequences up to length 40 over 3 keys and 2 databases; the snapshot files are compared byte for byte with the Lean model after every snapshot and the reloaded dataset with the model's loader; "
             "oracle: dataset captured at each completed snapshot vs the dataset after the next restart. non-trivial = at least one snapshot that writes something and one restart; distinct by trace hash")
